@@ -229,7 +229,7 @@ theorem ViewOK.extend {s : St} {d : Disk} {must issued : List Grp} {j : Job} {e 
     · exact (houtsE g hg).2.2.2.2 g' hg'
   · intro p hp g hg
     have hp' := mem_relJournals.1 hp
-    exact ⟨(hkeep p hp'.1 hp'.2 g hg).1, (hok.jseq p (relJournals_mono hmj hp) g hg).2⟩
+    exact ⟨(hkeep p hp'.1 hp'.2 g hg).1.imp id (fun u w => u (hmust g w)), (hok.jseq p (relJournals_mono hmj hp) g hg).2⟩
   · intro g hg p hp g' hg'
     rw [hlg, List.mem_append] at hg
     have hp' := mem_relJournals.1 hp
